@@ -53,6 +53,16 @@ def plan(tier, seed):
                        "tree_size": E1.tree_size(len(ALPH[an]), L)})
         for sh in E1.shard_prefixes(ALPH[an], L, 2):
             tasks.append((name, ("dec", an, tn, L, sh)))
+    from mc.props import c01
+    for fi, (fname, table, members) in enumerate(c01.families(tier)):
+        if fname in ("long",):
+            continue
+        name = "decoder/family/%s/%s" % (fname, table if isinstance(table, str) else "huge")
+        scopes.append({"name": name, "members": "those with < 100 ring bonds and < 1500 symbols", "table": table,
+                       "desc": "C01's parametric families (many rings incl. two-digit %nn labels, rings across "
+                               "fragments, deep nesting, branch budgets) with the attribution oracle"})
+        for k in range(0, len(members), 10):
+            tasks.append((name, ("fam", fi, k, k + 10, tier)))
     nt, rt = (7, 2) if thorough else (6, 2)
     scopes.append({"name": "encoder/forms", "n_max": nt, "r_max": rt,
                    "desc": "every written form x first-bond in {'', '='} x first atom in {C, [O-], Cl}; each also followed by "
@@ -261,6 +271,27 @@ def run(task):
                 last = ("".join(w), out)
         if last:
             r.sample({"scope": scope, "selfies": last[0], "decoder": last[1]}, 1)
+    elif arg[0] == "fam":
+        from mc.props import c01
+        _, fi, lo, hi, tier = arg
+        fname, table, members = c01.families(tier)[fi]
+        t = use_table(table)
+        for label, s_ in members[lo:hi]:
+            w = tuple(misc.tokenize(s_))
+            if len(w) > 1500:
+                continue
+            try:
+                m = refmodel.decode(w, t)
+                if sum(len(x) for x in m.ringnbrs) // 2 >= 100:
+                    continue
+            except refmodel.Reject:
+                continue
+            out = check_decoder(w, t, r)
+            if out is not None:
+                last = (label, out[:80])
+        if last:
+            r.sample({"scope": scope, "member": last[0], "decoder": last[1]}, 1)
+            last = None
     else:
         _, n, pi, rmax = arg
         par = list(E2.parent_vectors(n))[pi]
